@@ -25,6 +25,9 @@ static TaskPlan gen_task(Rng &r, bool thorough, char force_dtype = 0) {
         if (u < 0.15) o.kind = "gssv";
         else if (u < 0.45) {
             o.kind = "gssvx"; o.fact = DOFACT; if (r.chance(0.3)) { o.lwork = ample_lwork(t.mats[0], t.tuning, t.tuning[5], cplx); o.align = r.chance(0.5) ? 4 : 0; }
+            // a tenth of the library-allocation calls run out of factor storage half way (persisting allocation failure from the k-th
+            // growth request on; derived from the call's own seed): the out-of-space exits are calls like any other
+            if (o.lwork == 0 && (o.rhs_seed >> 36) % 10 == 0) { FaultSpec f; f.k = 2 + (int)((o.rhs_seed >> 40) % 8); f.persist = true; o.faults.push_back(f); }
             t.ops.push_back(o);
             if (r.chance(0.5)) { Op q = o; static const int fm[] = {SamePattern, SamePattern_SameRowPerm, FACTORED}; q.fact = fm[r.below(3)]; q.rhs_seed = r.next(); q.trans = r.chance(0.5) ? NOTRANS : TRANS; q.refine = SLU_DOUBLE; q.condnum = 1; t.ops.push_back(q); }
             continue;
